@@ -217,34 +217,47 @@ def run(tier, seed):
                                      "(key %s; the stored deadline does not come from the entry's own login time and lifetime)" % kname, "expired-token-served")
             return None
 
-        it.solver.push()
-        it.solver.add(*rng)
-        paths = it.explore(thunk, max_paths=400000)
-        it.solver.pop()
-        s = z3.Solver()
-        s.add(*rng)
         # histories the native twin can run: one clock value, every deadline at least 5 s away from it
         one_clock = [clk[i] == clk[0] for i in range(1, n)] + [clk[0] >= 200000000]
         for i in range(n):
             # the native clock is about 1.8e9 s: keep login time + lifetime and the deadlines inside i32 there
             one_clock += [ttlv[i] < 100000000, dlv[i] < clk[0] + 100000000, dlv[i] + 100000000 > clk[0], nowv[i] + 100000000 > clk[0]]
             one_clock += [z3.Or(nowv[i] + ttlv[i] + 5 <= clk[0], nowv[i] + ttlv[i] >= clk[0] + 5), z3.Or(dlv[i] + 5 <= clk[0], dlv[i] >= clk[0] + 5)]
+        nviol = [0]
+
+        def stop(r):
+            # a violation ends the exploration - preferably one whose history the native twin can run (one clock value)
+            if r[0] != "violation":
+                return False
+            nviol[0] += 1
+            return it._feasible(z3.And(*one_clock)) or nviol[0] >= 40
+        it.solver.push()
+        it.solver.add(*rng)
+        paths = it.explore(thunk, max_paths=400000, stop=stop)
+        it.solver.pop()
+        s = z3.Solver()
+        s.add(*rng)
         viol = None
         for pc, r, exc in paths:
             if exc is not None:
                 viol = {"message": "panic in the cache table: %s" % exc, "tags": ["panic"], "model": {}}
                 break
-            if r[0] == "violation":
+        if not viol:
+            for pc, r, exc in reversed(paths):
+                if r[0] != "violation":
+                    continue
                 s.push()
                 s.add(*pc)
                 if s.check() == z3.sat:
-                    viol = {"message": r[1], "tags": [r[2]], "model": {"ops": concretize(r[3], s.model())}}
+                    cand = {"message": r[1], "tags": [r[2]], "model": {"ops": concretize(r[3], s.model())}}
                     s.add(*one_clock)
                     if s.check() == z3.sat:
-                        viol["model"] = {"ops": concretize(r[3], s.model())}
-                        viol["native_ops"] = to_native(viol["model"]["ops"])
+                        cand["model"] = {"ops": concretize(r[3], s.model())}
+                        cand["native_ops"] = to_native(cand["model"]["ops"])
+                    if viol is None or cand.get("native_ops"):
+                        viol = cand
                 s.pop()
-                if viol:
+                if viol and viol.get("native_ops"):
                     break
         import os
         import random
